@@ -99,6 +99,7 @@ def calculate_peak(motion):
 
 def calc_peak(motion):
     """Calculates the peak absolute response"""
+    motion = np.asarray(motion, dtype=float)
     return max(abs(min(motion)), max(motion))
 
 
